@@ -58,7 +58,7 @@ type Glue interface {
 	NewParser() Parser
 	MakeToken(name, lit string, off, line, col int) interface{}
 	MutateToken(x interface{})
-	TokMethods(x interface{})
+	TokMethods(x interface{}) string // calls the token's convenience methods; what they returned, rendered
 	TokInfo(x interface{}) (TokInfo, bool)
 	ErrInfo(x interface{}) (ErrInfo, bool)
 }
@@ -248,6 +248,7 @@ type Outcome struct {
 	Panic    string   `json:"panic,omitempty"`
 	Problems []string `json:"problems,omitempty"`
 	Diverged bool     `json:"diverged,omitempty"`
+	Methods  string   `json:"methods,omitempty"` // digest of what the tokens' convenience methods returned, call by call
 	Carries  bool     `json:"-"` // the returned error carries the injected value
 	After    int      `json:"-"`
 	FaultHit bool     `json:"-"`
@@ -416,6 +417,9 @@ func (e *env) runParse(p Parser, lex Lexer, in *Input, f *Fault, sess *act.Sessi
 		}
 	}()
 	out.Log = append([]string(nil), sess.Log...)
+	if sess.MethodCalls > 0 {
+		out.Methods = fmt.Sprintf("%d:%016x", sess.MethodCalls, sess.MethodDigest)
+	}
 	out.Scans = scans
 	out.Problems = append([]string(nil), sess.Problems...)
 	out.After = sess.AfterFault
